@@ -307,9 +307,15 @@ def _timetree():
         {"id": "ctmc", "type": "CTMCScale", "x": "rate", "tree_model": "tree"},
         # time-aware GMRF (skyride smoothing weighted by the interval mid-points) on a tree given by node heights
         {"id": "gmrf.time", "type": "GMRF", "x": P("ta.field", [0.3, -0.2, 0.5, 0.1]), "precision": P("ta.precision", [1.5]), "tree_model": "tree"},
-        scenes.joint("joint", ["coal", "coal.int", "expcoal", "poisson", "ctmc", "gmrf.time"]),
+        # birth-death skyline priors with an origin of their own: absolute (above the root) and as the branch above the root
+        {"id": "bdsk.abs", "type": "BDSKModel", "tree_model": "tree", "R": P("bd.R", [1.5, 0.8]), "delta": P("bd.delta", [0.5, 0.7]), "s": P("bd.s", [0.2, 0.4]),
+         "rho": P("bd.rho", [0.3]), "origin": P("bd.origin", [9.0]), "times": P("bd.times", [0.0, 3.0])},
+        {"id": "bdsk.edge", "type": "BDSKModel", "tree_model": "tree", "R": "bd.R", "delta": "bd.delta", "s": "bd.s", "rho": "bd.rho",
+         "origin": P("bd.root_edge", [2.0]), "origin_is_root_edge": True, "times": "bd.times"},
+        scenes.joint("joint", ["coal", "coal.int", "expcoal", "poisson", "ctmc", "gmrf.time", "bdsk.abs", "bdsk.edge"]),
     ]
-    dom = {"heights": "ordered", "theta": "positive", "theta2": "positive", "growth": "real", "rate": "positive", "ta.field": "real", "ta.precision": "positive"}
+    dom = {"heights": "ordered", "theta": "positive", "theta2": "positive", "growth": "real", "rate": "positive", "ta.field": "real", "ta.precision": "positive",
+           "bd.R": "positive", "bd.delta": "positive", "bd.s": "unit", "bd.rho": "unit", "bd.root_edge": "positive"}
     return spec, dom
 
 
